@@ -629,13 +629,24 @@ static DEEP: std::sync::atomic::AtomicBool = std::sync::atomic::AtomicBool::new(
 static ONE_CPU: std::sync::atomic::AtomicBool = std::sync::atomic::AtomicBool::new(false);
 
 fn bind_to_one_cpu() {
-    unsafe {
-        let cpu = libc::sched_getcpu().max(0) as usize;
+    // only counts if it took effect: the process may afterwards run on exactly one CPU
+    let effective = unsafe {
+        let mut allowed: libc::cpu_set_t = std::mem::zeroed();
+        let mut cpu = libc::sched_getcpu();
+        if libc::sched_getaffinity(0, std::mem::size_of::<libc::cpu_set_t>(), &mut allowed) == 0 && (cpu < 0 || !libc::CPU_ISSET(cpu as usize, &allowed)) {
+            cpu = (0..libc::CPU_SETSIZE as usize).find(|c| libc::CPU_ISSET(*c, &allowed)).map(|c| c as i32).unwrap_or(-1);
+        }
         let mut set: libc::cpu_set_t = std::mem::zeroed();
-        libc::CPU_SET(cpu, &mut set);
-        libc::sched_setaffinity(0, std::mem::size_of::<libc::cpu_set_t>(), &set);
-    }
-    ONE_CPU.store(true, std::sync::atomic::Ordering::Relaxed);
+        if cpu >= 0 {
+            libc::CPU_SET(cpu as usize, &mut set);
+        }
+        let mut now: libc::cpu_set_t = std::mem::zeroed();
+        cpu >= 0
+            && libc::sched_setaffinity(0, std::mem::size_of::<libc::cpu_set_t>(), &set) == 0
+            && libc::sched_getaffinity(0, std::mem::size_of::<libc::cpu_set_t>(), &mut now) == 0
+            && libc::CPU_COUNT(&now) == 1
+    };
+    ONE_CPU.store(effective, std::sync::atomic::Ordering::Relaxed);
 }
 
 fn generate(rng: &mut Rng) -> Scenario {
@@ -1164,14 +1175,17 @@ fn is_write(e: &Event) -> bool {
 
 /// The addend each write of one execution should have carried, given everything that execution did
 /// to the shared page in order (`events`): the constant of the program, or - for an add whose source
-/// was loaded from the page - what the last load of that word returned, or-ed with 1.
+/// was loaded from the page - what the program's load of that word returned, or-ed with 1 (None if
+/// no such load was seen: the add is then judged by what it did, not by what it should have added).
 fn addends_in_effect(exp: &[Add], events: &[&Event]) -> Vec<Option<u64>> {
     let mut out = Vec::new();
     let mut k = 0usize;
     let mut last_load: BTreeMap<(u16, u8), u64> = BTreeMap::new();
     for e in events {
         if e.class == EvClass::Load {
-            last_load.insert((e.off, e.width), e.before);
+            // the program's own load is the FIRST one of that word after the execution's previous
+            // write (an implementation of the add may load its target word too, e.g. a CAS loop)
+            last_load.entry((e.off, e.width)).or_insert(e.before);
         }
         if is_write(e) {
             if k < exp.len() {
@@ -1180,6 +1194,7 @@ fn addends_in_effect(exp: &[Add], events: &[&Event]) -> Vec<Option<u64>> {
                     Some(key) => last_load.get(&key).map(|v| v | 1),
                 });
             }
+            last_load.clear();
             k += 1;
         }
     }
@@ -1364,6 +1379,7 @@ fn check(sc: &Scenario, out: &RunOutput) -> Option<Violation> {
         }
         let (exp, _) = expected_writes(&sc.execs[i]);
         let all_c: Vec<&Event> = out.conc.events.iter().filter(|e| e.thread as usize == i).collect();
+        let writes_c: Vec<&Event> = all_c.iter().copied().filter(|e| is_write(e)).collect();
         let in_effect_c = addends_in_effect(&exp, &all_c);
         for (j, a) in exp.iter().enumerate() {
             let off = a.off as usize;
@@ -1372,7 +1388,12 @@ fn check(sc: &Scenario, out: &RunOutput) -> Option<Violation> {
             for k in (0..w).rev() {
                 cur = (cur << 8) | want[off + k] as u64;
             }
-            let addend = in_effect_c.get(j).copied().flatten().unwrap_or(a.addend);
+            let addend = match (a.from_load, in_effect_c.get(j).copied().flatten()) {
+                (None, _) => a.addend,
+                (Some(_), Some(v)) => v,
+                // the load was not seen as an event of its own: take what the write did
+                (Some(_), None) => writes_c.get(j).map(|e| delta(e)).unwrap_or(a.addend),
+            };
             let nv = cur.wrapping_add(addend) & mask(a.width);
             for k in 0..w {
                 want[off + k] = (nv >> (8 * k)) as u8;
@@ -1586,6 +1607,19 @@ fn minimise(sc: &Scenario, class: &str) -> (Scenario, usize) {
     // every variant that runs into the CPU budget costs seconds: give up on minimising after a few
     let fired0 = sched::WATCHDOG_FIRED.load(std::sync::atomic::Ordering::Relaxed);
     let budget = || if sched::WATCHDOG_FIRED.load(std::sync::atomic::Ordering::Relaxed) - fired0 > 1 { 0usize } else { 400usize };
+    // long no-op prefixes first: every later variant is then cheap to compile
+    for t in 0..cur.execs.len() {
+        if cur.execs[t].pad > 0 && evals < budget() {
+            let mut cand = cur.clone();
+            cand.execs[t].pad = 0;
+            evals += 1;
+            let (v, out) = eval(&cand);
+            if same_class(&v, class) {
+                cand.schedule = Some(out.conc.effective.clone());
+                cur = cand;
+            }
+        }
+    }
     // drop executions (thread ids in the schedule are remapped)
     let mut i = 0;
     while i < cur.execs.len() && cur.execs.len() > 1 && evals < budget() {
@@ -1860,6 +1894,7 @@ fn cmd_run(args: &[String]) -> i32 {
         cj[k.as_str()] = simcore::ju64(*v);
     }
     o["counters"] = cj;
+    o["one_cpu_effective"] = ONE_CPU.load(std::sync::atomic::Ordering::Relaxed).into();
     o["schedule_sigs"] = JsonValue::Array(st.sigs.iter().map(|s| simcore::ju64(*s)).collect());
     o["hashes"] = JsonValue::Array(hashes.iter().map(|(i, h)| json::array![simcore::ju64(*i), simcore::ju64(*h)]).collect());
     let mut vc = JsonValue::new_object();
